@@ -357,6 +357,10 @@ func redactPipelineStage(stage interface{}, redactFieldNames bool, keyPath []str
 						default:
 							newMap.Set(redactedKey, redactScalarValue([]string{k}, v, inSearchStage, false))
 						}
+					} else if vMap, ok := v.(*orderedmap.OrderedMap[string, any]); ok {
+						// A document in a field-name position is an expression / specification
+						// that can hold literals: walk it instead of passing it through
+						newMap.Set(redactedKey, redactPipelineStage(vMap, redactFieldNames, newKeyPath, inSearchStage))
 					} else {
 						newMap.Set(redactedKey, v)
 					}
@@ -439,6 +443,8 @@ func redactPipelineStage(stage interface{}, redactFieldNames bool, keyPath []str
 										default:
 											newSubMap.Set(subK, redactScalarValue([]string{k}, subV, inSearchStage, false))
 										}
+									} else if subVMap, ok := subV.(*orderedmap.OrderedMap[string, any]); ok {
+										newSubMap.Set(subK, redactPipelineStage(subVMap, redactFieldNames, append(newKeyPath, subK), inSearchStage))
 									} else {
 										newSubMap.Set(subK, subV)
 									}
